@@ -331,6 +331,14 @@ def run_quant(prop, tier, seed):
         if not cases:
             raise MachineryError("no cases from MC_Quantities[%s]" % g)
         rep = replay_histories([[c] for c in cases], QuantDriver(system=system, props=(prop,)), split_depth=1, label="quant_" + g)
+        # the same cases again in shared processes, in two opposite orders (state left by earlier calls)
+        order = list(cases)
+        random.Random(seed + 1).shuffle(order)
+        chains = [order[i::8] for i in range(8)] + [list(reversed(order[i::8])) for i in range(8)]
+        repw = replay_histories(chains, QuantDriver(system=system, props=(prop,)), split_depth=1, label="quant_warm_" + g)
+        v.impl += repw["n"]
+        v.evaluations += repw["n"]
+        v.add_violations([dict(x, key="warm:" + x["key"]) if x["key"] not in {y["key"] for y in rep["mm"]} else x for x in repw["mm"]])
         v.impl += rep["n"]
         v.evaluations += rep["n"]
         v.nontrivial += rep["stats"].get("ok", 0) + rep["stats"].get("reject", 0)
